@@ -438,6 +438,10 @@ class DrvDomain(Domain):
                 return a / b
             if op in ("<", "<=", ">", ">=", "==", "!="):
                 return {"<": a < b, "<=": a <= b, ">": a > b, ">=": a >= b, "==": a == b, "!=": a != b}[op]
+        if isinstance(a, Handle) and a.kind in ("grid", "cache") and b is None and op in ("==", "!="):
+            return op == "!="
+        if isinstance(b, Handle) and a is None and op in ("==", "!="):
+            return self.abs_binop(op, b, a, e, fr)
         if isinstance(a, Ptr) and b is None:
             if op == "!=":
                 return a.nonnull
@@ -652,6 +656,8 @@ class DrvDomain(Domain):
                 raise AnalysisBroken("Level method %s not modelled at %s" % (callee, site))
         if isinstance(this, Handle) and this.kind == "vec" and mname == "size" and not args:
             return this.size
+        if isinstance(this, Handle) and this.kind in ("grid", "cache") and mname == "operator bool":
+            return True     # the grid / cache of an existing level
         if isinstance(this, Handle) and this.kind == "grid":
             m = mname
             if m == "numberOfNodes":
